@@ -248,14 +248,15 @@ def build_exact(recipe, data=None, variant=0):
     ds = recipe["data_seed"]
     tasks = recipe.get("tasks", 0)
     # ---- data
+    data_batch = [] if recipe.get("shared_data") else batch  # shared_data: batched hyper-parameters on one un-batched data set
     if data is None:
         if fam == "grid":
             grid, x = grid_inputs(recipe["grid_n"], d)
-            x = x.expand(*batch, *x.shape) if batch else x
+            x = x.expand(*data_batch, *x.shape) if data_batch else x
         else:
-            x = make_inputs(ds, batch, n, d)
+            x = make_inputs(ds, data_batch, n, d)
         if fam == "hadamard":
-            idx = torch.randint(0, tasks, (*batch, x.shape[-2], 1), generator=gen(ds + 5))
+            idx = torch.randint(0, tasks, (*data_batch, x.shape[-2], 1), generator=gen(ds + 5))
             inputs = (x, idx)
             y = make_targets(ds, x)
         elif fam == "multitask":
@@ -264,7 +265,7 @@ def build_exact(recipe, data=None, variant=0):
         else:
             inputs = (x,)
             y = make_targets(ds, x)
-        fixed = fixed_noise_vector(ds, batch, x.shape[-2]) if recipe["lik"].startswith("fixed") else None
+        fixed = fixed_noise_vector(ds, data_batch, x.shape[-2]) if recipe["lik"].startswith("fixed") else None
         y = with_nans(y, recipe, ds)
     else:
         inputs, y, fixed = data["inputs"], data["targets"], data.get("fixed_noise")
